@@ -567,6 +567,14 @@ theorem step_invB {s s' : St} {e : Ev} (hH : s.hasH = false) (hi : InvB s) (h : 
       obtain ⟨hk', _⟩ := changePoint_struct hk hcp
       have hsrc' : allow = true := by simpa using hal
       subst hsrc'
+      have hlen1 : p.evals.length = 1 := by
+        have h1 := hp.1
+        cases hev : p.evals with
+        | nil => rw [hev] at hsrc; simp at hsrc
+        | cons a t =>
+          rw [hev] at h1
+          simp only [List.length_cons] at h1 ⊢
+          omega
       have hov' : overwriteOK m k v = true := by cases hh : overwriteOK m k v <;> simp_all
       refine hi.consume hm hpend (v := v) (fun f hf => chg_final hk hcp hov' hf) hk' ?_ _ ?_
       · intro i hv _ c3 c4
